@@ -55,6 +55,9 @@ extern "C" fn on_segv(_sig: libc::c_int, info: *mut libc::siginfo_t, ctx: *mut l
         let t = tr();
         let addr = (*info).si_addr() as usize;
         if t.is_null() || !(*t).armed || addr < (*t).base || addr >= (*t).base + (*t).len {
+            if crate::crash::enabled() {
+                crate::crash::report_and_exit(libc::SIGSEGV);
+            }
             // Not ours: restore the default action and let the fault happen again.
             let mut sa: libc::sigaction = std::mem::zeroed();
             sa.sa_sigaction = libc::SIG_DFL;
@@ -100,7 +103,7 @@ extern "C" fn on_trap(_sig: libc::c_int, _info: *mut libc::siginfo_t, ctx: *mut 
     }
 }
 
-fn install_handlers() {
+pub fn install_handlers() {
     INSTALL.call_once(|| {
         // SAFETY: plain sigaction calls with valid handler addresses.
         unsafe {
